@@ -169,6 +169,16 @@ reg("C12", "exploration",
     "property-based testing (Hypothesis) with differential (metamorphic) oracle over input representations",
     "DESIGN.md section 4 C12")
 
+reg("C10", "exploration",
+    "Hypothesis-generated sequences of 2-4 experiments (shared, disjoint and overlapping data; 1-2 files each) are run "
+    "jointly from a YAML or list file in a drawn order with 1/2/4 threads; every experiment is also run alone; the "
+    "per-experiment directories must contain the same files with the same bytes (modulo header) and the combined_* "
+    "tables must carry exactly the per-experiment columns.",
+    "Stand-alone reference = one-experiment YAML/list with the same name and options; two repaired defects listed as "
+    "fixed.",
+    "property-based testing (Hypothesis) over operation sequences with differential oracle (joint vs stand-alone)",
+    "DESIGN.md section 4 C10")
+
 NOT_YET = "check not built yet in this session (see DESIGN.md section 6a build order)"
 
 
